@@ -296,6 +296,23 @@ def regenerate():
         if old != text:
             with open(out, "w") as f:
                 f.write(text)
+    # whole `update` methods of the synchronous node classes (harness/gen_nodes.py)
+    import gen_nodes
+    try:
+        if "core" not in trees:
+            trees["core"] = ast.parse(open(os.path.join(REPO, "streamz", "core.py")).read())
+        node_files = gen_nodes.generate_all(trees["core"])
+    except (SyntaxError, OSError) as e:
+        node_files = {"KN_" + c: (None, str(e)) for c in gen_nodes.ORDER}
+    for name, (text, err) in node_files.items():
+        if err is not None:
+            text = "(* kernel no longer translatable: %s *)\nDefinition kernel_not_translatable : False := I.\n" % err.replace("*)", "* )").replace("(*", "( *")
+            errors[name] = err
+        out = os.path.join(gen_dir, name + ".v")
+        old = open(out).read() if os.path.exists(out) else None
+        if old != text:
+            with open(out, "w") as f:
+                f.write(text)
     stale = os.path.join(gen_dir, "Kernels.v")
     if os.path.exists(stale):
         os.remove(stale)
@@ -304,7 +321,10 @@ def regenerate():
 
 if __name__ == "__main__":
     e = regenerate()
-    for name, _, _ in KERNELS:
+    import gen_nodes
+    for name in [k[0] for k in KERNELS] + ["KN_" + c for c in gen_nodes.ORDER]:
+        if len(sys.argv) > 1 and name not in sys.argv[1:]:
+            continue
         print(open(os.path.join(VERIF, "coq", "theories", "Gen", name + ".v")).read())
     if e:
         print("ERROR:", e)
